@@ -1,12 +1,186 @@
-(* C01 -- property theorems only: statement + exact + Print Assumptions. *)
-From Coq Require Import List ZArith.
-From LJT Require Import gen.GenLimits model.Huff model.DMarkers proofs.DMarkersProofs.
+(* C01 -- property theorems only: statement + exact + Print Assumptions.
+   Model: model/DMarkers.v (marker reader, memory source with fake EOI, initial_setup,
+   per_scan_setup, latch_quant_tables, entropy start_pass checks, decode_mcu_slow block loop),
+   constants / table / array sizes: gen/GenLimits.v (regenerated from the source each run).
+   Every statement quantifies over ALL byte strings (lists of Z in 0..255), all bit strings,
+   all valid derived tables. *)
+From Coq Require Import List ZArith Bool.
+From LJT Require Import gen.GenLimits model.Huff model.DMarkers
+  proofs.DMarkersProofs proofs.DMarkersScanProofs proofs.DMarkersBlockProofs proofs.DMarkersTop.
 Import ListNotations.
 Local Open Scope Z_scope.
 
+(* generated table: 64 + 16 entries, all < 64 (the padding absorbs k = 64..79) *)
 Theorem C01_natural_order_padded :
   length natural_order = 80%nat /\
   Forall (fun v => 0 <= v < 64) natural_order /\
   bound_natural_order = 80 /\ bound_quantval = 64 /\ L_DCTSIZE2 = 64.
 Proof. exact natural_order_facts. Qed.
 Print Assumptions C01_natural_order_padded.
+
+(* the guards of the C text mirrored by the model (listed in GenLimits.guards) are all present *)
+Theorem C01_guards_present : guards_all_present = true.
+Proof. exact guards_present_. Qed.
+Print Assumptions C01_guards_present.
+
+(* (1) read_markers terminates on every byte string, on a memory source (fk = true) and on a
+   suspending source (fk = false), within length/2 + 3 iterations of its marker loop; it ends
+   with SOS, EOI, a suspension (never on a memory source) or an error code -- never by lack
+   of fuel; every array index formed on the way is inside the declared array. *)
+Theorem C01_read_markers_total : forall (data : list Z) (fk : bool), Forall byte data ->
+  match read_markers (Nat.div2 (length data) + 3) hdr0 (io0 data fk) with
+  | Done r s' => not_continue r /\ step_ok r /\ trace_ok s' /\ (length (real s') <= length data)%nat
+  | Susp => fk = false
+  | Fail e s' => e <> E_OUT_OF_FUEL /\ trace_ok s'
+  end.
+Proof. exact read_markers_total_. Qed.
+Print Assumptions C01_read_markers_total.
+
+(* ... because every completed marker fetch consumes >= 2 bytes of the buffer or is the fake EOI *)
+Theorem C01_marker_fetch_consumes : forall s, inv s ->
+  match next_marker s with
+  | Done c s' => (length (real s') + 2 <= length (real s))%nat \/ c = M_EOI
+  | Susp => fake s = false
+  | Fail _ _ => False
+  end /\
+  match first_marker s with
+  | Done c s' => (length (real s') + 2 <= length (real s))%nat \/ c = M_EOI
+  | Susp => fake s = false
+  | Fail e _ => e <> E_OUT_OF_FUEL
+  end.
+Proof. exact marker_fetch_consumes_. Qed.
+Print Assumptions C01_marker_fetch_consumes.
+
+(* (2)+(3) whatever jpeg_read_header and the first start_input_pass ACCEPT is inside every limit
+   the later stages rely on, every table number was checked before use, every table that
+   reaches jpeg_make_d_derived_tbl is valid; accepted or not, every index recorded is in range
+   and the memory source never suspends. *)
+Theorem C01_accepted_bounds : forall data, Forall byte data ->
+  match read_and_start data with
+  | Done (Started h su si u) s' =>
+      let f := h_frame h in let sc := h_scan h in
+      1 <= f_nc f <= L_MAX_COMPONENTS /\ Z.of_nat (length (f_comps f)) = f_nc f /\
+      Forall comp_bounds (f_comps f) /\
+      1 <= f_height f <= L_JPEG_MAX_DIMENSION /\ 1 <= f_width f <= L_JPEG_MAX_DIMENSION /\
+      (if f_lossless f then 2 <= f_prec f <= 16 else f_prec f = 8 \/ f_prec f = 12) /\
+      1 <= su_maxh su <= L_MAX_SAMP_FACTOR /\ 1 <= su_maxv su <= L_MAX_SAMP_FACTOR /\
+      1 <= s_n sc <= L_MAX_COMPS_IN_SCAN /\ Z.of_nat (length (s_cur sc)) = s_n sc /\
+      Forall (fun ci => 0 <= ci < f_nc f) (s_cur sc) /\
+      0 <= si_blocks si <= L_D_MAX_BLOCKS_IN_MCU /\ Z.of_nat (length (si_member si)) = si_blocks si /\
+      Forall (fun m => 0 <= m < s_n sc) (si_member si) /\
+      Forall (used_bounds (f_lossless f)) u /\
+      trace_ok s'
+  | Done (OnlyTables h) s' => trace_ok s'
+  | Susp => False
+  | Fail e s' => e <> E_OUT_OF_FUEL /\ trace_ok s'
+  end.
+Proof. exact accepted_bounds_. Qed.
+Print Assumptions C01_accepted_bounds.
+
+(* (3) get_dht keeps every table slot well formed (17 count bytes, 256 value bytes, sum <= 256);
+   a table accepted by jpeg_make_d_derived_tbl has <= 256 symbols, all bytes, DC categories <= m *)
+Theorem C01_dht_accepted_valid :
+  (forall h, hdr_ok h -> post (get_dht h) hdr_ok) /\
+  (forall bits vals isDC m d, htbl_ok (bits, vals) -> make_d_derived bits vals isDC m = Some d ->
+     sumZ (skipn 1 bits) <= 256 /\ (length (d_vals d) <= 256)%nat /\ Forall (fun v => 0 <= v <= 255) (d_vals d) /\
+     (isDC = true -> Forall (fun v => 0 <= v <= m) (d_vals d))).
+Proof. exact dht_accepted_valid_. Qed.
+Print Assumptions C01_dht_accepted_valid.
+
+(* (4) decode_mcu_slow, one block: for every pair of valid derived tables and EVERY bit string
+   every store goes to natural_order[k] with k <= 63 + 15 < 80 and lands at a position < 64,
+   k strictly increases, at most 64 stores, 64 iterations of fuel always suffice *)
+Theorem C01_decode_block_index_safe : forall dct act bs, dtbl_ok dct -> dtbl_ok act ->
+  match decode_block dct act bs with
+  | BlkDone st _ | BlkSusp st =>
+      Forall (fun e => 0 <= kof e <= 63 + 15 /\ kof e < bound_natural_order /\
+                       snd (fst e) = nthd natural_order (kof e) (-1) /\ 0 <= snd (fst e) < L_DCTSIZE2) st /\
+      desc st /\ (length st <= 64)%nat
+  | BlkFuel _ => False
+  end.
+Proof. exact decode_block_spec. Qed.
+Print Assumptions C01_decode_block_index_safe.
+
+(* (5) with the end-of-input rule of the memory source (insert FF D9) the marker level of the whole
+   stream reaches EOI or an error after at most length/2 + 3 scans, whatever the entropy
+   decoders consume in between (ec = any consumer that only moves forward) *)
+Theorem C01_fake_eoi_terminates : forall ec data, ec_mono ec -> Forall byte data ->
+  match decode_stream ec (Nat.div2 (length data) + 3) hdr0 0 (io0 data true) with
+  | Done (h, nscans) s' => 0 <= nscans <= Z.of_nat (length data) / 2 + 3 /\ trace_ok s'
+  | Susp => False
+  | Fail e s' => e <> E_OUT_OF_FUEL /\ trace_ok s'
+  end.
+Proof. exact fake_eoi_terminates_. Qed.
+Print Assumptions C01_fake_eoi_terminates.
+
+(* (6) The full property is about the C text: an implementation run on a byte string under a
+   configuration.  It stays a definition; what is proved is its model-level part. *)
+Record c_run := mk_c_run {
+  r_accesses : list (Z * Z);     (* every memory access as (index, size of the object) *)
+  r_undefined : bool;            (* some undefined behaviour was executed *)
+  r_terminated : bool;
+  r_steps : Z;                   (* machine steps *)
+  r_reported : bool;             (* ended with success / warning / error through the documented channel *)
+  r_uninit_output : bool         (* a sample reported as produced was never written *)
+}.
+Definition C01_full (impl : list Z -> Z -> c_run) (area : list Z -> Z) (scanlimit c : Z) : Prop :=
+  forall data cfg, Forall byte data ->
+    let r := impl data cfg in
+    Forall (fun p => 0 <= fst p < snd p) (r_accesses r) /\ r_undefined r = false /\
+    r_terminated r = true /\ r_steps r <= c * (Z.of_nat (length data) + area data * scanlimit) /\
+    r_reported r = true /\ r_uninit_output r = false.
+
+Theorem C01_partial :
+  (* marker level: termination, time bound, error reporting, index safety *)
+  (forall (data : list Z) (fk : bool), Forall byte data ->
+     match read_markers (Nat.div2 (length data) + 3) hdr0 (io0 data fk) with
+     | Done r s' => not_continue r /\ step_ok r /\ trace_ok s' /\ (length (real s') <= length data)%nat
+     | Susp => fk = false
+     | Fail e s' => e <> E_OUT_OF_FUEL /\ trace_ok s'
+     end) /\
+  (* header + first scan set-up: accepted => inside all limits *)
+  (forall data, Forall byte data -> accepted_bounds_stmt data) /\
+  (* block decoding: index discipline for every bit string *)
+  (forall dct act bs, dtbl_ok dct -> dtbl_ok act -> blk_ok (decode_block dct act bs)) /\
+  (* whole stream at marker level with the fake EOI *)
+  (forall ec data, ec_mono ec -> Forall byte data ->
+     match decode_stream ec (Nat.div2 (length data) + 3) hdr0 0 (io0 data true) with
+     | Done (h, nscans) s' => 0 <= nscans <= Z.of_nat (length data) / 2 + 3 /\ trace_ok s'
+     | Susp => False
+     | Fail e s' => e <> E_OUT_OF_FUEL /\ trace_ok s'
+     end).
+Proof. exact (conj read_markers_total_ (conj accepted_bounds_ (conj decode_block_spec fake_eoi_terminates_))). Qed.
+Print Assumptions C01_partial.
+
+(* ------------------------------------------------------------ non-vacuity *)
+(* a real 8x8 baseline JPEG written by the encoder of the tree is accepted, with > 400 recorded indices *)
+Example C01_ex_baseline_accepted :
+  Forall byte tiny_baseline /\
+  match read_and_start tiny_baseline with
+  | Done (Started h su si u) s =>
+      f_width (h_frame h) = 8 /\ f_height (h_frame h) = 8 /\ f_nc (h_frame h) = 1 /\ f_prec (h_frame h) = 8 /\
+      si_blocks si = 1 /\ length u = 2%nat /\ (length (trace s) > 400)%nat
+  | _ => False
+  end.
+Proof. exact tiny_baseline_parses. Qed.
+
+Example C01_ex_lossless_accepted :
+  match read_and_start tiny_lossless with
+  | Done (Started h su si u) s =>
+      f_lossless (h_frame h) = true /\ f_prec (h_frame h) = 12 /\ f_width (h_frame h) = 3 /\ s_Ss (h_scan h) = 2
+  | _ => False
+  end.
+Proof. exact tiny_lossless_parses. Qed.
+
+Example C01_ex_truncated_has_verdict :
+  match read_and_start (firstn 40 tiny_baseline) with Done (OnlyTables _) s => eofw s > 0 | _ => False end /\
+  match read_and_start (firstn 95 tiny_baseline) with Fail e _ => e = E_BAD_LENGTH \/ e = E_SOF_NO_SOS \/ e = E_EMPTY_IMAGE | _ => False end.
+Proof. exact tiny_truncated_has_verdict. Qed.
+
+(* valid tables + a corrupt run really store at k = 63 + 15 (position 63): the padding is needed *)
+Example C01_ex_block_reaches_k78 : block_reaches_k78_check = true.
+Proof. exact block_reaches_k78. Qed.
+
+(* a forward-only entropy consumer exists (hypothesis of C01_fake_eoi_terminates is satisfiable) *)
+Example C01_ex_ec_mono : ec_mono (fun _ s => s).
+Proof. exact ec_id_mono. Qed.
